@@ -8,7 +8,7 @@
    Characters are Unicode code points (N): Python's len() counts code points.
    The C++ tokenizer/parser (extern/filereaderlp) is not modelled. *)
 From Coq Require Import List ZArith NArith QArith Qcanon Bool Arith.
-From Dimod Require Import Base.Util Model.Poly.
+From Dimod Require Import Base.Util Model.Poly Gen.Gen_LP.
 Import ListNotations.
 Open Scope Qc_scope.
 
@@ -67,7 +67,8 @@ Definition text := list char.
 Definition NL : char := 10%N.
 Definition SP : char := 32%N.
 Definition is_blank (c : char) : bool := N.eqb c NL || N.eqb c SP.
-Definition TARGET : nat := 80.
+(* _WidthLimitedFile.TARGET_LINE_LEN, generated from lp.py *)
+Definition TARGET : nat := TARGET_LINE_LEN.
 
 (* index of the first newline of s, or len(s) when there is none *)
 Fixpoint first_line_len (s : text) : nat :=
@@ -150,20 +151,9 @@ Definition lines (s : text) : list text := lines_from [] s.
 (* ------------------------------------------------------------------ *)
 (* labels *)
 
-Definition in_range (lo hi c : N) : bool := N.leb lo c && N.leb c hi.
-Definition is_letter (c : char) : bool := in_range 65 90 c || in_range 97 122 c.
-Definition is_digit (c : char) : bool := in_range 48 57 c.
-
-(* the punctuation of LABEL_VALID_CHARS (by code point) incl. the two typographic quotes U+2018, U+2019 *)
-Definition other_valid : list char :=
-  [39; 33; 34; 35; 36; 37; 38; 40; 41; 44; 46; 59; 63; 64; 95; 8216; 8217; 123; 125; 126]%N.
-
-Definition valid_char (c : char) : bool :=
-  is_letter c || is_digit c || existsb (N.eqb c) other_valid.
-
-(* e, E, full stop, digits *)
-Definition invalid_first (c : char) : bool :=
-  N.eqb c 101 || N.eqb c 69 || N.eqb c 46 || is_digit c.
+(* LABEL_VALID_CHARS and LABEL_INVALID_FIRST_CHARS are generated from lp.py (Gen/Gen_LP.v) *)
+Definition valid_char (c : char) : bool := existsb (N.eqb c) LABEL_VALID_CHARS.
+Definition invalid_first (c : char) : bool := existsb (N.eqb c) LABEL_INVALID_FIRST_CHARS.
 
 (* a label as dump sees it: None for a non-string label *)
 Definition validate_label (l : option text) : bool :=
@@ -172,13 +162,13 @@ Definition validate_label (l : option text) : bool :=
   | Some s =>
       match s with
       | [] => false
-      | c :: _ => Nat.leb (length s) 255 && forallb valid_char s && negb (invalid_first c)
+      | c :: _ => Nat.leb (length s) LABEL_MAX_LEN && forallb valid_char s && negb (invalid_first c)
       end
   end.
 
 (* the grammar as a specification *)
 Definition lp_name (l : option text) : Prop :=
-  exists c r, l = Some (c :: r) /\ (length (c :: r) <= 255)%nat /\
+  exists c r, l = Some (c :: r) /\ (length (c :: r) <= LABEL_MAX_LEN)%nat /\
               Forall (fun x => valid_char x = true) (c :: r) /\ invalid_first c = false.
 
 Record cqm_shape := mkShape {
